@@ -322,4 +322,109 @@ theorem chanOutsPN_append (c : Nat) (a : PNAbs) (xs ys : List Bytes) :
   | nil => rfl
   | cons x xs ih => simp [chanOutsPN, chanAfterPN, ih]
 
+/-! ### data independence: helper lemmas for Props/C11 -/
+
+theorem foldl_relabel {α : Type} (g : α → α) (st : α → Op → α) (f : Nat → Nat)
+    (h : ∀ acc op, st (g acc) (relabelOp f op) = g (st acc op)) (past : List Op) (acc : α) :
+    (past.map (relabelOp f)).foldl st (g acc) = g (past.foldl st acc) := by
+  induction past generalizing acc with
+  | nil => rfl
+  | cons op ops ih => simp only [List.map_cons, List.foldl_cons, h, ih]
+
+theorem foldl_inv {α : Type} (P : α → Prop) (st : α → Op → α)
+    (h : ∀ acc op, op.Valid → P acc → P (st acc op)) (past : List Op) (hp : ∀ op ∈ past, op.Valid) (acc : α)
+    (ha : P acc) : P (past.foldl st acc) := by
+  induction past generalizing acc with
+  | nil => exact ha
+  | cons op ops ih =>
+    exact ih (fun o ho => hp o (List.mem_cons_of_mem _ ho)) _ (h acc op (hp op (List.mem_cons_self ..)) ha)
+
+/-- on a channel below 16, relabelling does not change whether a message is a Control Change on it, nor its controller number -/
+theorem relabelB_cc (f : Nat → Nat) (c : Nat) (hc : c < 16) (b : Bytes) :
+    ccOn c (relabelB f b) = ccOn c b ∧ (relabelB f b).d1 = b.d1 ∧
+      (ccOn c b = true → (relabelB f b).d2 = f b.d2) := by
+  unfold relabelB ccOn
+  by_cases h : 176 ≤ b.status ∧ b.status < 192
+  · simp [h]
+  · have : (b.status == 176 + c) = false := by simp only [beq_eq_false_iff_ne]; omega
+    simp [h, this]
+
+theorem numMsbStep_relabel (f : Nat → Nat) (c : Nat) (hc : c < 16) (acc : Option Nat) (op : Op) :
+    numMsbStep c (acc.map f) (relabelOp f op) = (numMsbStep c acc op).map f := by
+  cases op with
+  | reset => simp [numMsbStep, relabelOp]
+  | feed b =>
+    obtain ⟨h1, h2, h3⟩ := relabelB_cc f c hc b
+    simp only [numMsbStep, relabelOp, h1, h2]
+    by_cases hcc : ccOn c b = true
+    · by_cases hn : isNumberMsbCn b.d1 = true <;> simp [hcc, hn, h3 hcc]
+    · simp [hcc]
+
+theorem numLsbStep_relabel (f : Nat → Nat) (c : Nat) (hc : c < 16) (acc : Option Nat) (op : Op) :
+    numLsbStep c (acc.map f) (relabelOp f op) = (numLsbStep c acc op).map f := by
+  cases op with
+  | reset => simp [numLsbStep, relabelOp]
+  | feed b =>
+    obtain ⟨h1, h2, h3⟩ := relabelB_cc f c hc b
+    simp only [numLsbStep, relabelOp, h1, h2]
+    by_cases hcc : ccOn c b = true
+    · by_cases hn : isNumberLsbCn b.d1 = true <;> simp [hcc, hn, h3 hcc]
+    · simp [hcc]
+
+theorem regStep_relabel (f : Nat → Nat) (c : Nat) (hc : c < 16) (acc : Bool) (op : Op) :
+    regStep c acc (relabelOp f op) = regStep c acc op := by
+  cases op with
+  | reset => simp [regStep, relabelOp]
+  | feed b =>
+    obtain ⟨h1, h2, _⟩ := relabelB_cc f c hc b
+    simp only [regStep, relabelOp, h1, h2]
+
+theorem v38Step_relabel (f : Nat → Nat) (c : Nat) (hc : c < 16) (acc : Option Nat) (op : Op) :
+    v38Step c (acc.map f) (relabelOp f op) = (v38Step c acc op).map f := by
+  cases op with
+  | reset => simp [v38Step, relabelOp]
+  | feed b =>
+    obtain ⟨h1, h2, h3⟩ := relabelB_cc f c hc b
+    simp only [v38Step, relabelOp, h1, h2]
+    by_cases hcc : ccOn c b = true
+    · by_cases hn : (isNumberMsbCn b.d1 || isNumberLsbCn b.d1) = true
+      · simp [hcc, hn]
+      · by_cases h38 : (b.d1 == 38) = true <;> simp [hcc, hn, h38, h3 hcc]
+    · simp [hcc]
+
+/-- every stored byte of a valid history is a 7-bit value -/
+def optLt (o : Option Nat) : Prop := ∀ v, o = some v → v < 128
+
+theorem numMsb_lt (c : Nat) (past : List Op) (hp : ∀ op ∈ past, op.Valid) : optLt (numMsb past c) := by
+  apply foldl_inv optLt (numMsbStep c) _ past hp none (by simp [optLt])
+  intro acc op hv ha
+  cases op with
+  | reset => simp [numMsbStep, optLt]
+  | feed b =>
+    simp only [numMsbStep]; split
+    · intro v hvv; cases hvv; exact hv.2.2.2
+    · exact ha
+
+theorem numLsb_lt (c : Nat) (past : List Op) (hp : ∀ op ∈ past, op.Valid) : optLt (numLsb past c) := by
+  apply foldl_inv optLt (numLsbStep c) _ past hp none (by simp [optLt])
+  intro acc op hv ha
+  cases op with
+  | reset => simp [numLsbStep, optLt]
+  | feed b =>
+    simp only [numLsbStep]; split
+    · intro v hvv; cases hvv; exact hv.2.2.2
+    · exact ha
+
+theorem v38_lt (c : Nat) (past : List Op) (hp : ∀ op ∈ past, op.Valid) : optLt (v38Of past c) := by
+  apply foldl_inv optLt (v38Step c) _ past hp none (by simp [optLt])
+  intro acc op hv ha
+  cases op with
+  | reset => simp [v38Step, optLt]
+  | feed b =>
+    simp only [v38Step]; split
+    · simp [optLt]
+    · split
+      · intro v hvv; cases hvv; exact hv.2.2.2
+      · exact ha
+
 end Midi
